@@ -376,11 +376,8 @@ func c16SetPart[K any](kt c16Key[K], vals []*Val, probes []*Val, rep *hx.Report)
 		case want >= 0 && kt.ptr && p.Index != want:
 			rep.Fail("locate:not-the-original", "LocateOriginalKey returns something else than the very key that was added", site+"/generic.go:35", obs.descProbe(pv), nil)
 		case want >= 0 && !kt.ptr && !valEq(p.Orig, vals[want]) && !(p.Orig.hasNaN()):
-			if kt.kind == 2 && kt.keyEq(p.Orig, vals[want]) {
-				rep.Fail("rekey:primitive-signed-zero", "a float key -0 (resp. +0) is located as itself, not as the +0 (resp. -0) the caller added: the primitive key set returns the looked-up key instead of the stored one", site+"/primitive.go:21-24", obs.descProbe(pv), nil)
-			} else {
-				rep.Fail("locate:not-the-original", "LocateOriginalKey returns something else than the very key that was added", site+"/generic.go:35", obs.descProbe(pv), nil)
-			}
+			// value keys: the very value that was added (for floats: the same sign of zero)
+			rep.Fail("locate:not-the-original", "LocateOriginalKey returns something else than the very key that was added", site+"/generic.go:35 primitive.go:21", obs.descProbe(pv), nil)
 		}
 		obs.Probes = append(obs.Probes, p)
 	}
@@ -564,10 +561,8 @@ func c16ReplyPart[K comparable](kt c16Key[K], obs *c16Obs, set batchkeyset.Batch
 							rep.Fail("reply:entry-lost-or-duplicated", "an entry of the reply is missing from the response", site, obs.descReply(&rp), nil)
 						case kt.ptr && hit.Index != want:
 							rep.Fail("reply:not-filed-under-the-original", "an entry of the reply is filed under a key that is not the very key the caller supplied", site, obs.descReply(&rp), nil)
-						case !kt.ptr && !valEq(hit.Key, obs.Keys[want]) && !kt.keyEq(hit.Key, obs.Keys[want]):
-							rep.Fail("reply:not-filed-under-the-original", "an entry of the reply is filed under a key that is not the key the caller supplied", site, obs.descReply(&rp), nil)
 						case !kt.ptr && !valEq(hit.Key, obs.Keys[want]):
-							rep.Fail("rekey:primitive-signed-zero", "a reply entry whose float key is -0 (resp. +0) is filed under that re-decoded key, not under the +0 (resp. -0) the caller supplied: the primitive key set returns the looked-up key instead of the stored one", "v2/restli/batchkeyset/primitive.go:21-37", obs.descReply(&rp), nil)
+							rep.Fail("reply:not-filed-under-the-original", "an entry of the reply is filed under a key that is not the key value the caller supplied (for floats: the same sign of zero)", site, obs.descReply(&rp), nil)
 						}
 					}
 				}
